@@ -43,6 +43,8 @@ struct Frame {
     rows: Vec<String>,
     started: Vec<u64>,
     removed_s: bool,
+    /// painted while MultiProgress::suspend was in progress (the region is hidden on purpose)
+    suspended: bool,
 }
 
 pub fn exec_sched(sc: &Scenario) -> Report {
@@ -83,15 +85,17 @@ pub fn exec_sched(sc: &Scenario) -> Report {
         }
         let started: Arc<Vec<AtomicU64>> = Arc::new((0..nworkers).map(|_| AtomicU64::new(0)).collect());
         let s_removed = Arc::new(AtomicU64::new(0)); // 0 = member, 1 = remove() in progress, 2 = removed
+        let suspended = Arc::new(AtomicU64::new(0));
         let frames: Arc<StdMutex<Vec<Frame>>> = Arc::new(StdMutex::new(vec![]));
         {
-            let (st, fr, sr) = (started.clone(), frames.clone(), s_removed.clone());
+            let (st, fr, sr, su) = (started.clone(), frames.clone(), s_removed.clone(), suspended.clone());
             term.lock().on_flush = Some(Arc::new(move |flush, rows| {
                 fr.lock().unwrap().push(Frame {
                     flush,
                     rows: rows.to_vec(),
                     started: st.iter().map(|a| a.load(Ordering::SeqCst)).collect(),
                     removed_s: sr.load(Ordering::SeqCst) == 2,
+                    suspended: su.load(Ordering::SeqCst) == 1,
                 });
             }));
         }
@@ -151,10 +155,28 @@ pub fn exec_sched(sc: &Scenario) -> Report {
         }
         // structural thread = this one
         let mut t_bar: Option<ProgressBar> = None;
+        let mut logs: Vec<String> = vec![];
         for op in sc.threads.first().cloned().unwrap_or_default() {
             match op.k.as_str() {
                 "mp_println" => {
                     let _ = mp.println(format!("L{}", op.n0()));
+                    logs.push(format!("L{}", op.n0()));
+                }
+                "mp_suspend" => {
+                    // external output while the region is hidden; the closure contains scheduling
+                    // points so that other threads get their chance in the middle of it
+                    let line = format!("U{}", op.n0());
+                    let t2 = term.clone();
+                    let l2 = line.clone();
+                    suspended.store(1, Ordering::SeqCst);
+                    mp.suspend(move || {
+                        sched::yield_now();
+                        let _ = indicatif::TermLike::write_line(&t2, &l2);
+                        let _ = indicatif::TermLike::flush(&t2);
+                        sched::yield_now();
+                    });
+                    suspended.store(0, Ordering::SeqCst);
+                    logs.push(line);
                 }
                 "s_tick" => s_bar.tick(),
                 "remove_s" => {
@@ -207,7 +229,7 @@ pub fn exec_sched(sc: &Scenario) -> Report {
             let mut seen = vec![false; nworkers];
             for row in &f.rows {
                 let tag = row.split(':').next().unwrap_or("");
-                if row.starts_with('L') || row == "END" {
+                if row.starts_with('L') || row.starts_with('U') || row == "END" {
                     if prev_rank.is_some() {
                         r.violate("C02.frame_order", format!("frame #{} (flush {}): a log line below a bar row: {:?}", fi, f.flush, f.rows));
                         break 'frames;
@@ -276,6 +298,9 @@ pub fn exec_sched(sc: &Scenario) -> Report {
                 }
             }
             for i in 0..nworkers {
+                if f.suspended {
+                    break;
+                }
                 if appeared[i] && !seen[i] {
                     r.violate("C02.member_missing", format!("frame #{fi} (flush {}): member B{i} was shown before but is missing: {:?}", f.flush, f.rows));
                     break 'frames;
@@ -295,6 +320,17 @@ pub fn exec_sched(sc: &Scenario) -> Report {
                 }
             } else {
                 r.violate("C02.final_frame", "no frame was painted at all".to_string());
+            }
+        }
+        // every line printed through println / by the closure of suspend stays, once, in order
+        if r.violation.is_none() {
+            let fin = term.transcript();
+            let shown: Vec<&String> = fin.iter().filter(|row| row.starts_with('L') || row.starts_with('U')).collect();
+            if shown.len() != logs.len() || shown.iter().zip(logs.iter()).any(|(a, b)| *a != b) {
+                r.violate(
+                    "C02.log_lines",
+                    format!("printed lines {logs:?} but the terminal finally shows {shown:?} (whole transcript: {fin:?})"),
+                );
             }
         }
         r.probe_n("frames_checked", frames.len() as u64);
@@ -326,7 +362,8 @@ pub fn gen_sched(rng: &mut Rng, tier: Tier) -> Scenario {
     // structural thread
     let mut s_ops = vec![];
     for _ in 0..rng.range(0, 6) {
-        s_ops.push(match rng.below(6) {
+        s_ops.push(match rng.below(7) {
+            6 => Op::new("mp_suspend").n(rng.below(100)),
             0 | 1 => Op::new("mp_println").n(rng.below(100)),
             2 => Op::new("s_tick"),
             3 => Op::new("remove_s"),
